@@ -5,6 +5,7 @@ import (
 	"fmt"
 	"go/types"
 	"strings"
+	"sync"
 )
 
 // TV is an SMT term with its sort and (optionally) Go type.
@@ -25,6 +26,45 @@ type structInfo struct {
 }
 
 // sorts registry; one per VC (so declarations are emitted per query set).
+// sortTypes remembers, across VCs, the Go type behind every struct sort name:
+// component sorts computed for one VC (write summaries are cached) may be
+// used in another one, whose registry then has to declare the datatype too.
+var (
+	sortTypesMu sync.Mutex
+	sortTypes   = map[string]types.Type{}
+)
+
+// ensureSorts declares every struct sort mentioned in an SMT sort expression.
+func (r *sortReg) ensureSorts(sort string) {
+	for {
+		i := strings.Index(sort, "|")
+		if i < 0 {
+			return
+		}
+		j := strings.Index(sort[i+1:], "|")
+		if j < 0 {
+			return
+		}
+		name := sort[i : i+j+2]
+		sort = sort[i+j+2:]
+		known := false
+		for _, si := range r.structs {
+			if si.sort == name {
+				known = true
+			}
+		}
+		if known {
+			continue
+		}
+		sortTypesMu.Lock()
+		t := sortTypes[name]
+		sortTypesMu.Unlock()
+		if t != nil {
+			r.structSort(t)
+		}
+	}
+}
+
 type sortReg struct {
 	structs  []*structInfo
 	decls    []string // sort declarations in dependency order
@@ -126,6 +166,9 @@ func (r *sortReg) structSort(t types.Type) *structInfo {
 		}
 	}
 	si := &structInfo{sort: q(name), st: st, named: t}
+	sortTypesMu.Lock()
+	sortTypes[q(name)] = t
+	sortTypesMu.Unlock()
 	r.structs = append(r.structs, si) // register before fields (no recursion expected through values)
 	var fl []string
 	for i := 0; i < st.NumFields(); i++ {
